@@ -80,9 +80,9 @@ static void desc(uint64_t idx, void *ctx, char *b, size_t n)
     hc_t c; (void) ctx; decode(idx, &c);
     static const char *pn[3] = { "all 0x00", "all 0xFF", "counting bytes" };
     char p[64]; if (c.pat < 3) snprintf(p, sizeof p, "%s", pn[c.pat]); else snprintf(p, sizeof p, "zero key with byte %d = 0x%02x", (c.pat - 3) / 2, (c.pat - 3) % 2 ? 0x80 : 0x01);
-    snprintf(b, n, "all six hashes on a %d-byte key (%s), alignment %d, seed 0x%08x, key ending at a heap redzone and at a PROT_NONE page", c.len, p, c.align, SEEDS[c.seed]);
+    snprintf(b, n, "all six hashes on a %d-byte key (%s), alignment %d, seed 0x%08x, key ending at a heap redzone, ending at and starting after a PROT_NONE page", c.len, p, c.align, SEEDS[c.seed]);
 }
-static uint8_t *g_guard;                 /* two pages: [RW][NONE] */
+static uint8_t *g_guard;                 /* three pages: [NONE][RW][NONE] */
 static long g_page;
 typedef uint32_t (*hfn)(spif_uint8_t *, spif_uint32_t, spif_uint32_t);
 
@@ -113,9 +113,12 @@ static void case_fn(uint64_t idx, void *ctx)
       free(blk); }
     /* (2) key ending exactly at a PROT_NONE page; (3) key starting right after one is covered by offset 0 of the heap block + ASan's left redzone */
     if (c.align == 0) {
-        uint8_t *k = g_guard + g_page - c.len;
+        uint8_t *k = g_guard + 2 * g_page - c.len;
         memcpy(k, ref, (size_t) c.len);
         check_all(k, c.len, seed, "key ends at a PROT_NONE page", shape, exp);
+        k = g_guard + g_page;
+        memcpy(k, ref, (size_t) c.len);
+        check_all(k, c.len, seed, "key starts right after a PROT_NONE page", shape, exp);
     }
     /* (4) the 32-bit-word variant: word-aligned keys, length counted in words */
     if (c.len % 4 == 0 && c.align % 4 == 0) {
@@ -152,8 +155,8 @@ int main(int argc, char **argv)
     MAXLEN = (int) mc_arg_int("maxlen", mc_thorough() ? 100 : 40);
     if (MAXLEN > 400) MAXLEN = 400;
     g_page = sysconf(_SC_PAGESIZE);
-    g_guard = mmap(NULL, (size_t) g_page * 2, PROT_READ | PROT_WRITE, MAP_PRIVATE | MAP_ANONYMOUS, -1, 0);
-    mprotect(g_guard + g_page, (size_t) g_page, PROT_NONE);
+    g_guard = mmap(NULL, (size_t) g_page * 3, PROT_READ | PROT_WRITE, MAP_PRIVATE | MAP_ANONYMOUS, -1, 0);
+    mprotect(g_guard, (size_t) g_page, PROT_NONE); mprotect(g_guard + 2 * g_page, (size_t) g_page, PROT_NONE);
     mc_info("alphabet", "length 0..%d x alignment 0..7 x seeds {0,1,0xf721b64d,0xffffffff} x patterns {all 00, all FF, counting, each single byte = 0x01 / 0x80}; jenkins32 on word-aligned keys; %s",
             MAXLEN, mc_thorough() ? "all 1- and 2-byte keys" : "all 1-byte keys");
     mc_e2_level("hash", MAXLEN, count_for(MAXLEN), case_fn, desc, NULL);
